@@ -7,10 +7,55 @@ import (
 	"flag"
 	"fmt"
 	"os"
+	"runtime"
 	"sort"
 	"strconv"
+	"sync"
 	"time"
 )
+
+// Resource guard. A render that explodes (an escape directive applied far more often than written, an include
+// that never ends) can exhaust the machine before any watchdog of a single render fires, and a process killed by
+// the kernel reports nothing. Checks announce the case they are about to run with guardCase; a background
+// goroutine watches the heap and, beyond the limit, reports THAT case as the violation and ends the run.
+var (
+	guardMu   sync.Mutex
+	guardSig  string
+	guardDesc any
+)
+
+func guardCase(sig string, desc any) {
+	guardMu.Lock()
+	guardSig, guardDesc = sig, desc
+	guardMu.Unlock()
+}
+
+func startGuard(r *Run, out string, start time.Time) {
+	const limit = 8 << 30
+	go func() {
+		var ms runtime.MemStats
+		for {
+			time.Sleep(50 * time.Millisecond)
+			runtime.ReadMemStats(&ms)
+			if ms.HeapAlloc < limit {
+				continue
+			}
+			guardMu.Lock()
+			sig, desc := guardSig, guardDesc
+			guardMu.Unlock()
+			if sig == "" {
+				fmt.Printf("INTERNAL-ERROR: the harness exceeded %d GiB of heap outside an announced case\n", limit>>30)
+				os.Exit(2)
+			}
+			if len(r.Violations) > 4 {
+				r.Violations = r.Violations[:4]
+			}
+			r.Violate("resource-explosion "+sig, fmt.Sprintf("the case exceeded %d GiB of heap (the run was stopped): the render does unboundedly more work than the template asks for", limit>>30), desc)
+			r.finish(out, time.Since(start))
+			os.Exit(1)
+		}
+	}()
+}
 
 type propFn func(r *Run)
 
@@ -46,6 +91,7 @@ func main() {
 	r := newRun(*id, *tier, *seed, *driver, *rdir, *kf)
 	r.replayFile = *replay
 	start := time.Now()
+	startGuard(r, *out, start)
 	fn(r)
 	r.finish(*out, time.Since(start))
 	os.Exit(r.exitCode())
